@@ -48,6 +48,10 @@ type ExtSpec struct {
 	ErrMod int `json:"err_mod,omitempty"`
 	// NamePool > 0 draws package names from a pool of that size (so that sort keys tie).
 	NamePool int `json:"name_pool,omitempty"`
+	// PrefixNames draws names and versions from pools whose members are prefixes of one
+	// another and continue with characters on both sides of '/' and of the digits (sort keys
+	// that only a field-by-field comparison orders correctly).
+	PrefixNames bool `json:"prefix_names,omitempty"`
 	// NoPURL makes ToPURL return nil.
 	NoPURL bool `json:"no_purl,omitempty"`
 	// NoPURLMod > 0: packages whose name hashes to 0 mod NoPURLMod have no purl.
@@ -100,6 +104,11 @@ type PkgKey struct {
 	Name, Version, Extractor, Locations string
 }
 
+var (
+	prefixNames    = []string{"foo", "foo-bar", "foo.bar", "foo bar", "foo/bar", "foo0", "fooa", "foo_bar", "a", "a/b", "Foo", "foo-", "foo!"}
+	prefixVersions = []string{"1.0", "1.0.1", "1.0-rc1", "1.0+b", "b/c", "c", "1.0 ", "1.00", "1.0/x"}
+)
+
 // ExpectedPackages is the deterministic inventory a fake extractor returns for a path.
 func (s ExtSpec) ExpectedPackages(filePath string) []PkgKey {
 	n := 0
@@ -114,6 +123,10 @@ func (s ExtSpec) ExpectedPackages(filePath string) []PkgKey {
 		if s.NamePool > 0 {
 			name = fmt.Sprintf("p%d", h%uint32(s.NamePool))
 			ver = fmt.Sprintf("%d", (h/7)%2)
+		}
+		if s.PrefixNames {
+			name = prefixNames[h%uint32(len(prefixNames))]
+			ver = prefixVersions[(h/31)%uint32(len(prefixVersions))]
 		}
 		out = append(out, PkgKey{Name: name, Version: ver, Extractor: s.Name, Locations: filePath})
 	}
